@@ -138,9 +138,12 @@ fn main() {
                     return v;
                 }
                 let exp = vcore::conv::expect(&c.case);
+                if let Some((idx, have, want)) = so.late {
+                    return vcore::runner::fail("C06/response-held-back-after-the-answer-returned", format!("request {} had been answered (respond / raw writer flushed and dropped / request dropped had returned), yet only {} of the {} final responses due were on the wire while other requests of the connection were still held", idx, have, want));
+                }
                 vcore::oracles::c06_oracle(&c.case, &exp, &so.obs)
             }));
-            ("part sched-conn: pipelines with drops among concurrently answering handler tasks under the controlled scheduler: a held-up follower is an exact deadlock report; one final response per delivered request", sched_assumptions)
+            ("part sched-conn: pipelines with drops among concurrently answering handler tasks under the controlled scheduler: a held-up follower is an exact deadlock report; one final response per delivered request; when a finishing action returns, its response and all earlier ones are on the client's side although later requests of the connection are still held", sched_assumptions)
         }
         other => {
             eprintln!("vsched: no parts for property {}", other);
